@@ -99,7 +99,10 @@ class Summary:
         t = self.returns[-1][1]
         for pc, term, _ in reversed(self.returns[:-1]):
             cond = pc_term(pc)
-            t = ("phi", cond, term, t)
+            if cond[0] == "un" and cond[1] == "not":  # `if not c: return a` + rest  is  `if c: rest else: return a`: one polarity
+                t = ("phi", cond[2], t, term)
+            else:
+                t = ("phi", cond, term, t)
         return t
 
 
@@ -458,7 +461,7 @@ class _Eval:
                     self.store(e, x, st)
             else:
                 for i, e in enumerate(tgt.elts):
-                    self.store(e, I(("sub", v, ("const", i))), st)
+                    self.store(e, I(index(v, ("const", i))), st)
         elif isinstance(tgt, ast.Attribute):
             if isinstance(tgt.value, ast.Name) and tgt.value.id == "self" and self.env.get("self") == ("param", "self"):
                 self.attrs[tgt.attr] = v
@@ -536,7 +539,7 @@ class _Eval:
             return nrows(v[1])  # x.shape[0] and len(x) are the same number: one canonical spelling
         if k[0] == "slice" and v[0] == "attr" and v[2] == "iloc":
             return ("sub", v[1], k)  # frame.iloc[a:b] and frame[a:b] are the same positional row slice
-        return ("sub", v, k)
+        return index(v, k)
 
     def e_Slice(self, e):
         f = lambda x: self.expr(x) if x is not None else ("const", None)  # noqa: E731
@@ -1003,6 +1006,15 @@ def _dict_get(cond, a, b):
         if hit == ("sub", d_, k_) and k_[0] == "const" and not any(x == ("sub", d_, k_) for x in walk(miss)):
             return ("call", ("attr", d_, "get"), (k_, miss), ())
     return None
+
+
+def index(v, k):
+    """v[k]; element i of a leading slice is element i of the sequence: x[:n][i] = x[i] for constant 0 <= i < n (what `a, b = x[:2]` reads)"""
+    if (k[0] == "const" and isinstance(k[1], int) and not isinstance(k[1], bool) and k[1] >= 0 and v[0] == "sub" and v[2][0] == "slice"
+            and v[2][1] in (("const", None), ("const", 0)) and v[2][3] in (("const", None), ("const", 1))
+            and v[2][2][0] == "const" and isinstance(v[2][2][1], int) and k[1] < v[2][2][1]):
+        return ("sub", v[1], k)
+    return ("sub", v, k)
 
 
 def nrows(x):
